@@ -67,12 +67,19 @@ MODS = ["permuta.permutils.finite", "permuta.permutils.polynomial",
 def _lib():
     import permuta
     import permuta.permutils as pu
+    import permuta.permutils.finite  # noqa
     from permuta import Av, Basis, Perm
     return {
         "Perm": Perm, "Av": Av, "Basis": Basis,
         "finite": pu.is_finite, "poly": pu.is_polynomial, "nonpoly": pu.is_non_polynomial,
         "insenc": pu.is_insertion_encodable, "right": pu.is_insertion_encodable_rightmost,
         "top": pu.is_insertion_encodable_maximum,
+        # the same functionality under its other public names
+        "cls:finite": permuta.permutils.finite.is_finite,
+        "cls:poly": pu.PolyPerms.is_polynomial, "cls:nonpoly": pu.PolyPerms.is_non_polynomial,
+        "cls:insenc": pu.InsertionEncodablePerms.is_insertion_encodable,
+        "cls:right": pu.InsertionEncodablePerms.is_insertion_encodable_rightmost,
+        "cls:top": pu.InsertionEncodablePerms.is_insertion_encodable_maximum,
     }
 
 
@@ -109,11 +116,25 @@ def container(kind, ps):
         return frozenset(ps)
     if kind == "Basis":
         return lib()["Basis"](*ps)
+    if kind == "map":
+        return map(lambda x: x, list(ps))
+    if kind == "reversed":
+        return reversed(list(ps)[::-1])
+    if kind == "chain":
+        ps = list(ps)
+        return itertools.chain(ps[:1], iter(ps[1:]))
+    if kind == "dictkeys":
+        return dict.fromkeys(ps).keys()
+    if kind == "dictvalues":
+        return dict(enumerate(ps)).values()
+    if kind == "deque":
+        return collections.deque(ps)
     raise ValueError(kind)
 
 
 def expected(fn, v):
     """v = (finite, poly, right, top) from the reference."""
+    fn = fn.split(":")[-1]
     return {"finite": v[0], "poly": v[1], "nonpoly": not v[1], "insenc": v[2] or v[3],
             "right": v[2], "top": v[3],
             "av_finite": v[0], "av_poly": v[1], "av_insenc": v[2] or v[3]}[fn]
@@ -128,6 +149,10 @@ def call(fn, kind, ps):
             av = L["Av"](container(kind, ps))
             got = {"av_finite": av.is_finite, "av_poly": av.is_polynomial,
                    "av_insenc": av.is_insertion_encodable}[fn]()
+        elif kind == "kw":
+            got = L[fn.split(":")[-1]](basis=list(ps))
+        elif fn.startswith("cls:"):
+            got = L[fn](container(kind, ps))
         else:
             got = L[fn](container(kind, ps))
     except Exception as exc:  # noqa
